@@ -219,6 +219,87 @@ theorem C17_values_verbatim (r : Regs) (fuel : Nat) (kind : RegKind) (name : Str
 example : (buildComp Gen.regs 3 .reward (.map [("name", .str "living_reward"), ("reward", .float 0 1)])).toOption.map
     (fun c => match c with | .mk _ kws _ => kws) = some [("reward", .float 0 1)] := by rfl
 
+/-! ### groups of components keep every entry -/
+
+theorem mapM_except_spec {α β ε} (f : α → Except ε β) : ∀ (l : List α) (r : List β), l.mapM f = .ok r →
+    r.length = l.length ∧ ∀ (i : Nat) (h : i < l.length) (h' : i < r.length), f l[i] = .ok r[i] := by
+  intro l
+  induction l with
+  | nil =>
+    intro r h
+    simp only [List.mapM_nil, pure, Except.pure, Except.ok.injEq] at h
+    subst h
+    exact ⟨rfl, fun i h => absurd h (by simp)⟩
+  | cons a rest ih =>
+    intro r h
+    rw [List.mapM_cons] at h
+    cases ha : f a with
+    | error e => rw [ha] at h; cases h
+    | ok b =>
+      cases hr : List.mapM f rest with
+      | error e => rw [ha, hr] at h; cases h
+      | ok bs =>
+        rw [ha, hr] at h
+        simp only [bind, Except.bind, pure, Except.pure, Except.ok.injEq] at h
+        subst h
+        obtain ⟨hl, hp⟩ := ih bs hr
+        refine ⟨by simp [hl], ?_⟩
+        intro i hi hi'
+        cases i with
+        | zero => simpa using ha
+        | succ j => simpa using hp j (by simpa using hi) (by simpa using hi')
+
+/-- **a group keeps every listed entry.**  The summed rewards of a description are built entry by
+entry, in the order written: the `reduce_sum` component has exactly the sub-components that the
+entries build on their own — two entries naming the same function with other parameters stay two. -/
+theorem C17_group_keeps_every_entry (r : Regs) (fuel : Nat) (l : List Yaml) (c : Comp)
+    (hsig : r.reward.find? (fun s => s.name == "reduce_sum") = some ⟨"reduce_sum", ["reward_functions"], []⟩)
+    (h : buildComp r (fuel + 1) .reward (.map [("name", .str "reduce_sum"), ("reward_functions", .list l)]) = .ok c) :
+    ∃ subs, l.mapM (buildComp r fuel .reward) = .ok subs ∧
+      (match c with | .mk n _ ss => n = "reduce_sum" ∧ ss = subs) := by
+  have hrest : ([("name", Yaml.str "reduce_sum"), ("reward_functions", Yaml.list l)] : List (String × Yaml)).filter
+      (fun kv => kv.1 != "name") = [("reward_functions", .list l)] := by
+    simp +decide [List.filter]
+  have hname : ([("name", Yaml.str "reduce_sum"), ("reward_functions", Yaml.list l)] : List (String × Yaml)).lookup "name"
+      = some (.str "reduce_sum") := by simp [List.lookup]
+  unfold buildComp at h
+  simp only [hname, hrest] at h
+  have l1 : ([("reward_functions", Yaml.list l)] : List (String × Yaml)).lookup "transition_functions" = none := by simp +decide [List.lookup]
+  have l2 : ([("reward_functions", Yaml.list l)] : List (String × Yaml)).lookup "reward_functions" = some (.list l) := by simp [List.lookup]
+  have l3 : ([("reward_functions", Yaml.list l)] : List (String × Yaml)).lookup "terminating_functions" = none := by simp +decide [List.lookup]
+  have l4 : ([("reward_functions", Yaml.list l)] : List (String × Yaml)).lookup "reward_function" = none := by simp +decide [List.lookup]
+  have l5 : ([("reward_functions", Yaml.list l)] : List (String × Yaml)).lookup "distance_function" = none := by simp +decide [List.lookup]
+  have l6 : ([("reward_functions", Yaml.list l)] : List (String × Yaml)).lookup "visibility_function" = none := by simp +decide [List.lookup]
+  have l7 : ([("reward_functions", Yaml.list l)] : List (String × Yaml)).lookup "area" = none := by simp +decide [List.lookup]
+  have l8 : ([("reward_functions", Yaml.list l)] : List (String × Yaml)).lookup "object_type" = none := by simp +decide [List.lookup]
+  have l9 : ([("reward_functions", Yaml.list l)] : List (String × Yaml)).lookup "colors" = none := by simp +decide [List.lookup]
+  simp only [l1, l2, l3, l4, l5, l6, l7, l8, l9] at h
+  cases hm : List.mapM (buildComp r fuel RegKind.reward) l with
+  | error e => rw [hm] at h; cases h
+  | ok s2 =>
+    rw [hm] at h
+    refine ⟨s2, rfl, ?_⟩
+    have hc : isCustom "reduce_sum" = false := by decide
+    have hfc : factoryCheck (r.of RegKind.reward) "reduce_sum" ["reward_functions"] =
+        .ok (⟨"reduce_sum", ["reward_functions"], []⟩, ["reward_functions"]) := by
+      simp +decide [factoryCheck, Regs.of, hsig]
+    simp only [Bool.not_true, Bool.false_eq_true, if_false, hc, List.map, hfc] at h
+    simp +decide at h
+    subst h
+    simp
+
+theorem C17_group_entrywise (r : Regs) (fuel : Nat) (l : List Yaml) (n : String) (kws : List (String × Yaml)) (subs : List Comp)
+    (hsig : r.reward.find? (fun s => s.name == "reduce_sum") = some ⟨"reduce_sum", ["reward_functions"], []⟩)
+    (h : buildComp r (fuel + 1) .reward (.map [("name", .str "reduce_sum"), ("reward_functions", .list l)]) = .ok (.mk n kws subs)) :
+    subs.length = l.length ∧ ∀ (i : Nat) (hi : i < l.length) (hi' : i < subs.length),
+      buildComp r fuel .reward l[i] = .ok subs[i] := by
+  obtain ⟨ss, hm, hc⟩ := C17_group_keeps_every_entry r fuel l _ hsig h
+  obtain ⟨_, rfl⟩ := hc
+  exact mapM_except_spec _ l subs hm
+
+/-- the regenerated reward registry has that entry -/
+example : Gen.regs.reward.find? (fun s => s.name == "reduce_sum") = some ⟨"reduce_sum", ["reward_functions"], []⟩ := by decide
+
 /-! ### the shipped configurations, the packaged copies, the registered ids -/
 
 /-- every shipped configuration validates and builds (statically) -/
